@@ -134,6 +134,7 @@ type chanState struct {
 type muState struct {
 	held    bool
 	owner   int
+	readers int // RWMutex read holders
 	waiters []*Task
 }
 
@@ -186,6 +187,7 @@ type Sched struct {
 	tseq      int
 	chans     map[uintptr]*chanState
 	mus       map[*sync.Mutex]*muState
+	rws       map[*sync.RWMutex]*muState
 	doneCh    chan Outcome
 	ended     bool
 	killing   bool
@@ -225,6 +227,7 @@ func New(cfg Config, ch Chooser) *Sched {
 		ch:     ch,
 		chans:  map[uintptr]*chanState{},
 		mus:    map[*sync.Mutex]*muState{},
+		rws:    map[*sync.RWMutex]*muState{},
 		doneCh: make(chan Outcome, 1),
 		pairs:  map[string]int{},
 		hash:   14695981039346656037,
@@ -638,7 +641,75 @@ func (s *Sched) Yield(site string) {
 }
 
 // Lock acquires a mutex; the scheduling point is before the acquisition.
+func (s *Sched) rwState(m *sync.RWMutex) *muState {
+	st := s.rws[m]
+	if st == nil {
+		st = &muState{}
+		s.rws[m] = st
+	}
+	return st
+}
+
+func (s *Sched) rwLock(m *sync.RWMutex, site string, write bool) {
+	if s.killing {
+		runtime.Goexit()
+	}
+	s.point(site)
+	st := s.rwState(m)
+	for st.held || (write && st.readers > 0) {
+		s.Stats.LockContended++
+		st.waiters = append(st.waiters, s.cur)
+		s.block(fmt.Sprintf("rwmutex (writer=%v readers=%d) (%s)", st.held, st.readers, site))
+	}
+	if write {
+		if !m.TryLock() {
+			panic("simkit: rwmutex locked outside the simulation")
+		}
+		st.held = true
+		st.owner = s.cur.ID
+	} else {
+		if !m.TryRLock() {
+			panic("simkit: rwmutex locked outside the simulation")
+		}
+		st.readers++
+	}
+}
+
+func (s *Sched) rwUnlock(m *sync.RWMutex, write bool) {
+	st := s.rwState(m)
+	if (write && !st.held) || (!write && st.readers == 0) {
+		if s.killing {
+			return
+		}
+		s.Misuse = append(s.Misuse, "unlock of unlocked rwmutex")
+		s.Emit("misuse", "unlock of unlocked rwmutex")
+		return
+	}
+	if write {
+		st.held = false
+		m.Unlock()
+	} else {
+		st.readers--
+		m.RUnlock()
+	}
+	for _, t := range st.waiters {
+		s.ready(t)
+	}
+	st.waiters = st.waiters[:0]
+}
+
+// RLock acquires a read lock.
+func (s *Sched) RLock(l *sync.RWMutex, site string) { s.rwLock(l, site, false) }
+
+// RUnlock releases a read lock.
+func (s *Sched) RUnlock(l *sync.RWMutex) { s.rwUnlock(l, false) }
+
+// Lock acquires a mutex; the scheduling point is before the acquisition.
 func (s *Sched) Lock(l sync.Locker, site string) {
+	if rw, isRW := l.(*sync.RWMutex); isRW {
+		s.rwLock(rw, site, true)
+		return
+	}
 	m, ok := l.(*sync.Mutex)
 	if !ok {
 		l.Lock()
@@ -669,6 +740,10 @@ func (s *Sched) Lock(l sync.Locker, site string) {
 
 // Unlock releases a mutex and makes its waiters runnable.
 func (s *Sched) Unlock(l sync.Locker) {
+	if rw, isRW := l.(*sync.RWMutex); isRW {
+		s.rwUnlock(rw, true)
+		return
+	}
 	m, ok := l.(*sync.Mutex)
 	if !ok {
 		l.Unlock()
